@@ -341,6 +341,20 @@ func (v *Verifier) verifyFunc(name string) *FuncResult {
 	for _, fv := range fn.FreeVars {
 		fr.bind = append(fr.bind, x.symbolic(st, fv.Type(), fv.Name()))
 	}
+	if len(fn.FreeVars) > 0 || fn.Parent() != nil {
+		// a closure verified as a function: `self` is the closure value; it was made before this call and
+		// after every variable it captured
+		x.selfTerm = x.fresh("self", SInt)
+		st.assume(app(">", x.selfTerm, "0"))
+		st.assume(eq(app("codeOf", x.selfTerm), num(int64(v.funcID(shortName(fn))))))
+		st.assume(app("<", app("birth", x.selfTerm), st.now))
+		for _, b := range fr.bind {
+			if b.K == VTerm {
+				st.assume(app("<", app("birth", b.T), app("birth", x.selfTerm)))
+			}
+		}
+		x.trackAxiom(st, con, x.selfTerm, fn, fr.bind)
+	}
 	st.entry = st.snapshot()
 	env := x.envFor(st)
 	// global invariants (constants of the package established by init)
@@ -392,6 +406,8 @@ func (v *Verifier) verifyFunc(name string) *FuncResult {
 				x.entryWhole[key] = true
 			} else if t.fresh {
 				x.entryTargets[key] = append(x.entryTargets[key], "fresh")
+			} else if t.older != "" {
+				x.entryTargets[key] = append(x.entryTargets[key], "older:"+t.older)
 			} else {
 				x.entryTargets[key] = append(x.entryTargets[key], t.ref)
 			}
